@@ -46,6 +46,7 @@ DEFAULT_SCHED = {
     "disc": 1,
     "plan_ahead": -1,
     "batching": False,
+    "preemptive": False,
 }
 
 
@@ -195,11 +196,11 @@ def build_scheduler(world, flags, sc):
     rt = us(sc["runtime"])
     la = us(sc["lookahead"])
     if kind == "edf":
-        return schedulers.EDFScheduler(runtime=rt, enforce_deadlines=sc["enforce"], _flags=flags)
+        return schedulers.EDFScheduler(preemptive=sc["preemptive"], runtime=rt, enforce_deadlines=sc["enforce"], _flags=flags)
     if kind == "fifo":
         return schedulers.FIFOScheduler(runtime=rt, enforce_deadlines=sc["enforce"], _flags=flags)
     if kind == "lsf":
-        return schedulers.LSFScheduler(runtime=rt, _flags=flags)
+        return schedulers.LSFScheduler(preemptive=sc["preemptive"], runtime=rt, _flags=flags)
     if kind == "ilp":
         from schedulers import ILPScheduler
 
@@ -222,13 +223,19 @@ def build_scheduler(world, flags, sc):
         return cls(**kw)
     if kind == "clockwork":
         return schedulers.ClockworkScheduler(runtime=rt, goal=sc.get("cw_goal", "clockwork"), _flags=flags)
+    if kind == "scripted":
+        from .hostile import ScriptedScheduler
+
+        return ScriptedScheduler(sc["script"], runtime=rt, lookahead=la, retract_schedules=sc["retract"],
+                                 release_taskgraphs=sc["rtg"], _flags=flags)
     if kind == "hostile":
         from .hostile import HostileScheduler
 
         return HostileScheduler(
             seed=world.get("seed", 0), runtime=rt, lookahead=la, retract_schedules=sc["retract"],
             release_taskgraphs=sc["rtg"], cancel_rate=sc.get("cancel_rate", 0.1),
-            cancel_cond_children=sc.get("cancel_cond_children", False), batching=sc.get("batching", False), _flags=flags,
+            cancel_cond_children=sc.get("cancel_cond_children", False), batching=sc.get("batching", False),
+            preemptive=sc.get("preemptive", False), _flags=flags,
         )
     raise ValueError(kind)
 
@@ -243,6 +250,14 @@ def build(world):
     jgs = build_job_graphs(world, profs)
     workload = N.Workload.from_job_graphs(jgs, _flags=flags)
     workload.populate_task_graphs(completion_time=us(fl["timeout"]))
+    # explicit release times for non-source tasks, as trace-replay loaders (TaskLoaderPylot) produce them
+    for gname, names in world.get("task_release", {}).items():
+        for tg in workload.task_graphs.values():
+            if tg.name.split("@")[0] == gname:
+                for tname, rel in names.items():
+                    t = tg.get_task(tname)
+                    t._release_time = us(rel)
+                    t._intended_release_time = us(rel)
     pools = build_pools(world)
     sched = build_scheduler(world, flags, sc)
     loader = make_loader(workload)
@@ -353,6 +368,11 @@ def gen_world(rnd: random.Random, *, kinds=("edf", "fifo", "lsf", "hostile"), ma
     # past" when the scheduler runtime is non-zero (see known findings): their worlds use 0
     sched = {"kind": kind, "runtime": rnd.choice([0, 0, 1, 2]) if kind == "hostile" else 0,
              "enforce": rnd.random() < 0.3 and kind in ("edf", "fifo")}
+    if kind == "scripted":
+        from .hostile import ScriptedScheduler
+
+        return ScriptedScheduler(sc["script"], runtime=rt, lookahead=la, retract_schedules=sc["retract"],
+                                 release_taskgraphs=sc["rtg"], _flags=flags)
     if kind == "hostile":
         sched.update({"lookahead": rnd.choice([0, 0, 3, 10]), "retract": rnd.random() < 0.4, "rtg": rnd.random() < 0.3,
                       "cancel_rate": rnd.choice([0.0, 0.1, 0.3]), "batching": rnd.random() < 0.3})
@@ -484,6 +504,43 @@ def directed_worlds():
         "pools": [[[I("gpu", "g1", 2)]], [[I("gpu", "g2", 2), I("gpu", "g3", 1)]]],
         "sched": {"kind": "hostile", "runtime": 1, "cancel_rate": 0.0, "lookahead": 6, "retract": True},
         "flags": {"timeout": 300, "frequency": 1}, "seed": 33,
+    })
+    # a cancellation racing a pending placement: A -> {X, B}, B -> C -> D; one invocation places A now, plans B for
+    # t=5 ahead of its release and cancels the sink X; B's placement fires while A still runs and the graph is
+    # cancelled: the simulator itself must cancel B *and its descendants*
+    out.append({
+        "name": "cancel_races_placement",
+        "profiles": [P(10), P(3)],
+        "graphs": [{"name": "G0", "jobs": [{"name": "A", "profile": 0, "children": ["X", "B"]}, {"name": "X", "profile": 1},
+                                           {"name": "B", "profile": 1, "children": ["C"]}, {"name": "C", "profile": 1, "children": ["D"]},
+                                           {"name": "D", "profile": 1}],
+                    "policy": {"type": "fixed", "period": 1, "n": 1, "start": 0}, "dv": [0, 0]}],
+        "pools": [[[I("gpu", "g1", 3)]]],
+        "sched": {"kind": "scripted", "runtime": 0, "lookahead": 50, "rtg": True, "script": [
+            {"at": 0, "decs": [{"task": "A@G0@0", "do": "place", "time": 0}, {"task": "B@G0@0", "do": "place", "time": 5},
+                               {"task": "X@G0@0", "do": "cancel"}]}]},
+        "flags": {"timeout": 100}, "seed": 1,
+    })
+    # dependents with their own (later) release time: B may only be released at t=50 although A finishes at t=10
+    out.append({
+        "name": "child_own_release_time",
+        "profiles": [P(10), P(3)],
+        "graphs": [{"name": "G0", "jobs": [{"name": "A", "profile": 0, "children": ["B"]}, {"name": "B", "profile": 1, "children": ["C"]},
+                                           {"name": "C", "profile": 1}],
+                    "policy": {"type": "fixed", "period": 1, "n": 1, "start": 0}, "dv": [0, 0]}],
+        "task_release": {"G0": {"B": 50}},
+        "pools": one_gpu, "sched": {"kind": "edf", "runtime": 0}, "flags": {"timeout": 2000, "expect_all_done": True}, "seed": 1,
+    })
+    # re-planning for the same time with another strategy (exactly), then the placement fires
+    out.append({
+        "name": "replan_same_time_scripted",
+        "profiles": [{"name": "P0", "strats": [{"dem": gpu1, "rt": 5, "bs": 1}, {"dem": [R("gpu", "any", 2)], "rt": 20, "bs": 1}]}],
+        "graphs": [{"name": "G0", "jobs": [{"name": "A", "profile": 0}], "policy": {"type": "fixed", "period": 1, "n": 1, "start": 0}, "dv": [0, 0]}],
+        "pools": [[[I("gpu", "g1", 2)]]],
+        "sched": {"kind": "scripted", "runtime": 0, "lookahead": 0, "retract": True, "script": [
+            {"at": 0, "decs": [{"task": "A@G0@0", "do": "place", "time": 10, "strategy": 1}]},
+            {"at": 1, "decs": [{"task": "A@G0@0", "do": "place", "time": 10, "strategy": 2}]}]},
+        "flags": {"timeout": 200, "frequency": 2}, "seed": 1,
     })
     for w in out:
         w.setdefault("flags", {})
